@@ -48,6 +48,7 @@ func main() {
 	repo := flag.String("repo", "/repo", "zog working tree")
 	out := flag.String("out", "", "output directory (gen/ and overlay.json are written here)")
 	shim := flag.String("shim", "", "path of the real zverif.go to map into the overlay")
+	keyroot := flag.String("keyroot", "", "overlay keys are written relative to this root instead of -repo (sources are read from -repo); used to check a scratch worktree without touching the module path")
 	flag.Parse()
 	if *out == "" || *shim == "" {
 		fmt.Fprintln(os.Stderr, "usage: zog-instr -repo /repo -out DIR -shim /verif/zverif/zverif.go")
@@ -85,7 +86,10 @@ func main() {
 
 	rep := &report{}
 	overlay := map[string]string{}
-	overlay[filepath.Join(*repo, "zverif", "zverif.go")] = *shim
+	if *keyroot == "" {
+		*keyroot = *repo
+	}
+	overlay[filepath.Join(*keyroot, "zverif", "zverif.go")] = *shim
 	fset := token.NewFileSet()
 	imp := importer.ForCompiler(fset, "source", nil)
 	yieldID := 0
@@ -141,7 +145,7 @@ func main() {
 			if err := os.WriteFile(dst, buf.Bytes(), 0o644); err != nil {
 				fatal(err)
 			}
-			overlay[paths[i]] = dst
+			overlay[filepath.Join(*keyroot, rel(*repo, paths[i]))] = dst
 			rep.Files++
 		}
 	}
